@@ -375,6 +375,12 @@ def c09(rec, table=None):
     last_req = set()
     for k, r in enumerate(table, start=1):
         req = set()
+        if r["p"]["kind"] == "result":
+            # the single evaluation made while the result of an early exit (infeasible or all-fixed bounds) is
+            # assembled is not an iteration that could be stopped
+            if k == len(table):
+                last_req = req
+            continue
         if r["complete"] and r["v"] is not None:
             v = r["v"]
             slack = r["vtol"] + 4 * EPS * abs(v if v == v else 0.0)
